@@ -119,55 +119,128 @@ def run(rep, prog, tier):
     if len(loops) != 1:
         raise AnalysisError('anchor vanished: loop over hits in _project_one_axis')
     lp = loops[0]
-    hv = lp.target.id
-    okl = ast.unparse(lp.iter) == 'range(proj_from + 1)'
-    pf = single_assignments(po).get('proj_from')
-    okl = okl and pf is not None and ast.unparse(pf) == 'self.sample_sizes[axis]'
-    rep.ob('R-EXH', '_project_one_axis loop', okl, 'for %s in %s with proj_from = %s' % (hv, ast.unparse(lp.iter), ast.unparse(pf) if pf is not None else '?'), sm.rel, lp.lineno,
-           what='every source hit count 0..from is visited')
     flat = all(isinstance(x, (ast.Assign, ast.AugAssign, ast.Expr)) for x in lp.body) and not any(isinstance(n, (ast.Continue, ast.Break, ast.If, ast.Try)) for x in lp.body for n in ast.walk(x))
     rep.ob('R-DOM', '_project_one_axis loop body', flat, 'loop body is a straight sequence of %d statements without continue/break/if' % len(lp.body), sm.rel, lp.lineno,
            what='data and mask updates execute for every hit count (mask propagation cannot depend on data values)')
-    body = {}
-    for x in lp.body:
-        if isinstance(x, ast.Assign):
-            body[ast.unparse(x.targets[0])] = x
-    win = body.get('(least, most)') or body.get('least, most')
-    okw = False
-    if win is not None and isinstance(win.value, ast.Tuple):
-        le, mo = win.value.elts
-        try:
-            okw = isinstance(le, ast.Call) and dotted(le.func) == 'max' and len(le.args) == 2 and isinstance(mo, ast.Call) and dotted(mo.func) == 'min' and len(mo.args) == 2
-            if okw:
-                la = sorted([Translator().tr(a).canon() for a in le.args])
-                ref = sorted([parse_expr('n - (proj_from - %s)' % hv).canon(), '0'])
-                ma = sorted(ast.unparse(a) for a in mo.args)
-                okw = la == ref and ma == sorted([hv, 'n'])
-        except AlgebraError:
-            okw = False
-    rep.ob('R-ALG', '_project_one_axis window', okw, ast.unparse(win) if win is not None else 'window not found', sm.rel, win.lineno if win is not None else lp.lineno,
-           what='least = max(n-(from-hits), 0), most = min(hits, n): the support of the hypergeometric distribution')
-    exp_slices = {'from_slice[axis]': 'slice(%s, %s + 1)' % (hv, hv), 'to_slice[axis]': 'slice(least, most + 1)', 'proj_slice[axis]': 'slice(least, most + 1)'}
-    for k_, v in exp_slices.items():
-        x = body.get(k_)
-        rep.ob('R-IDX', '_project_one_axis %s' % k_, x is not None and ast.unparse(x.value) == v, '%s = %s' % (k_, ast.unparse(x.value) if x is not None else '?'), sm.rel, x.lineno if x is not None else lp.lineno,
-               what='%s = %s' % (k_, v))
-    pc = body.get('proj')
-    okp = pc is not None and isinstance(pc.value, ast.Call) and dotted(pc.value.func) == '_cached_projection' and [ast.unparse(a) for a in pc.value.args] == ['n', 'proj_from', hv]
-    rep.ob('R-IDX', '_project_one_axis weights call', okp, ast.unparse(pc) if pc is not None else '', sm.rel, pc.lineno if pc is not None else lp.lineno, what='_cached_projection(to=n, from=proj_from, hits)')
-    data = [x for x in lp.body if isinstance(x, ast.AugAssign) and ast.unparse(x.target) == 'pfs.data[tuple(to_slice)]']
-    okd = len(data) == 1 and isinstance(data[0].op, ast.Add) and ast.unparse(data[0].value) == 'self.data[tuple(from_slice)] * proj[tuple(proj_slice)]'
-    rep.ob('R-TPL', '_project_one_axis data update', okd, ast.unparse(data[0]) if data else 'not found', sm.rel, data[0].lineno if data else lp.lineno, what='destination window += source slice * weights window')
-    mk = body.get('pfs.mask[tuple(to_slice)]')
-    okm = mk is not None and isinstance(mk.value, ast.Call) and dotted(mk.value.func) in ('numpy.logical_or', 'np.logical_or') and \
-        sorted(ast.unparse(a) for a in mk.value.args) == sorted(['pfs.mask[tuple(to_slice)]', 'self.mask[tuple(from_slice)]'])
-    rep.ob('R-TPL', '_project_one_axis mask update', okm, ast.unparse(mk) if mk is not None else 'not found', sm.rel, mk.lineno if mk is not None else lp.lineno,
-           what='destination mask |= source mask over the same window as the data')
     sing = single_assignments(po)
-    oki = all(ast.unparse(sing.get(k_)) == v for k_, v in (('from_slice', '[slice(None) for ii in range(self.Npop)]'), ('to_slice', '[slice(None) for ii in range(self.Npop)]'),
-                                                       ('proj_slice', '[nuax for ii in range(self.Npop)]')) if sing.get(k_) is not None) and all(k_ in sing for k_ in ('from_slice', 'to_slice', 'proj_slice'))
-    rep.ob('R-IDX', '_project_one_axis slices init', oki, 'other axes: full slices for data, broadcast (newaxis) for the weights' +
-           ('' if all(k_ in sing for k_ in ('from_slice', 'to_slice', 'proj_slice')) else ': the three index lists were not found'), sm.rel, po.lineno, what='only the projected axis is restricted')
+    # what one iteration of the loop does, for 1..3 populations and every axis: abstract execution with a symbolic hit count.  The
+    # index tuples are compared as values, so the way they are built (lists updated in place, tuple arithmetic, Ellipsis) is irrelevant
+    from sa import miniexec as mx
+    from sa import alpha
+    known = alpha.load_table().get('__params__', {}).get(sm.rel)
+    known = set(known) if known is not None else None
+    prob = {'loop': [], 'window': [], 'from': [], 'to': [], 'proj': [], 'call': [], 'data': [], 'mask': [], 'init': []}
+
+    def rat(v):
+        return parse_expr(mx.show(v))
+
+    def window_of(sl, hits_name):
+        """slice(max(n - (from - hits), 0), min(hits, n) + 1)"""
+        if not isinstance(sl, slice) or sl.step not in (None, 1):
+            return False
+        lo, hi = mx.call_of(sl.start, 'max'), None
+        his = mx.factors(sl.stop, '+') if isinstance(sl.stop, mx.Sym) else []
+        hi_call = [x for x in his if mx.call_of(x, 'min') is not None]
+        ones = [x for x in his if x == 1]
+        if lo is None or len(hi_call) != 1 or len(ones) != 1 or len(his) != 2:
+            return False
+        try:
+            la = sorted(rat(a).canon() if not isinstance(a, int) else str(a) for a in lo[0])
+            ref = sorted([parse_expr('n - (FROM - %s)' % hits_name).canon(), '0'])
+            la = [x.replace('self.sample_sizes[AXIS]', 'FROM') for x in la]
+            ma = sorted(mx.show(a) for a in mx.call_of(hi_call[0], 'min')[0])
+        except AlgebraError:
+            return False
+        return la == ref and ma == sorted([hits_name, 'n'])
+    n_runs = 0
+    for D in (1, 2, 3):
+        for axis in range(D):
+            it = mx.Interp(prog, sm, known_functions=known, symbolic_loops=True)
+            selfv = mx.Sym('self', truth=True, attrs={'Npop': D, 'ndim': D, 'sample_sizes': mx.Sym('self.sample_sizes', length=D, elems=lambda k: mx.Sym('FROM' if k == axis else 'self.sample_sizes[%d]' % k)),
+                                                   'shape': mx.Sym('self.shape', length=D)})
+            try:
+                paths = it.run(po, {'self': selfv, 'n': mx.Sym('n'), 'axis': axis})
+            except mx.Undecidable as e:
+                raise AnalysisError('_project_one_axis is not recognised: %s' % e)
+            n_runs += 1
+            tagr = '%d-D axis %d' % (D, axis)
+            for outcome, events, dec in paths:
+                lpe = [e for e in events if e[0] == 'loop']
+                if len(lpe) != 1:
+                    prob['loop'].append('%s: %d loops' % (tagr, len(lpe)))
+                    continue
+                hits = lpe[0][2]
+                if lpe[0][1].replace(' ', '') not in ('range((FROM+1))', 'range(0,(FROM+1))', 'range(FROM+1)'):
+                    prob['loop'].append('%s: loop over %s' % (tagr, lpe[0][1]))
+                calls = [e for e in events if e[0] == 'call' and e[1].split('.')[-1] == '_cached_projection']
+                if len(calls) != 1 or [mx.show(a) for a in calls[0][2]] != ['n', 'FROM', hits] or calls[0][3]:
+                    prob['call'].append('%s: %s' % (tagr, ['%s(%s)' % (c[1], ', '.join(mx.show(a) for a in c[2])) for c in calls]))
+                upd = [e for e in events if e[0] == 'augitem' and mx.show(e[1]).endswith('.data')]
+                if len(upd) != 1 or upd[0][3] != 'Add':
+                    prob['data'].append('%s: %d accumulating updates of the data' % (tagr, len(upd)))
+                    continue
+                _, base, key_to, _, val = upd[0]
+                key_to = key_to if isinstance(key_to, tuple) else (key_to,)
+                dest = mx.show(base)[:-len('.data')]
+
+                def full_elsewhere(key, what):
+                    return len(key) == D and all(mx.is_full_slice(x) for k_, x in enumerate(key) if k_ != axis)
+                if not (full_elsewhere(key_to, 'to') and window_of(key_to[axis], hits)):
+                    prob['to'].append('%s: destination index %s' % (tagr, mx.show(key_to)))
+                fac = mx.factors(val, '*')
+                src = [f for f in fac if isinstance(f, mx.Sym) and f.struct and f.struct[0] == 'index' and mx.show(f.struct[1]) == 'self.data']
+                wts = [f for f in fac if f not in src]
+                if len(src) != 1 or len(wts) != 1:
+                    prob['data'].append('%s: increment %s' % (tagr, mx.show(val)[:80]))
+                    continue
+                key_from = src[0].struct[2] if isinstance(src[0].struct[2], tuple) else (src[0].struct[2],)
+                okfrom = full_elsewhere(key_from, 'from') and isinstance(key_from[axis], slice) and mx.show(key_from[axis].start) == hits and \
+                    mx.show(key_from[axis].stop).replace(' ', '') in ('(%s+1)' % hits, '(1+%s)' % hits) and key_from[axis].step in (None, 1)
+                if not okfrom:
+                    prob['from'].append('%s: source index %s' % (tagr, mx.show(key_from)))
+                # the weights: proj[(nuax.., window, nuax..)]  or  proj[window][(nuax.., :, nuax..)]
+                w = wts[0]
+                okw = False
+                if isinstance(w, mx.Sym) and w.struct and w.struct[0] == 'index':
+                    inner, key = w.struct[1], w.struct[2] if isinstance(w.struct[2], tuple) else (w.struct[2],)
+                    others = len(key) == D and all(mx.is_newaxis(x) for k_, x in enumerate(key) if k_ != axis)
+                    if mx.call_of(inner, '_cached_projection') is not None:
+                        okw = others and window_of(key[axis], hits)
+                    elif isinstance(inner, mx.Sym) and inner.struct and inner.struct[0] == 'index' and mx.call_of(inner.struct[1], '_cached_projection') is not None:
+                        okw = others and mx.is_full_slice(key[axis]) and window_of(inner.struct[2], hits)
+                if not okw:
+                    prob['proj'].append('%s: weights %s' % (tagr, mx.show(w)[:90]))
+                # the mask: destination mask over the same window OR-ed with the source mask over the source slice
+                mset = [e for e in events if e[0] == 'setitem' and e[1] == dest + '.mask'] + [e for e in events if e[0] == 'augitem' and mx.show(e[1]) == dest + '.mask']
+                okm = False
+                if len(mset) == 1:
+                    e = mset[0]
+                    if e[0] == 'setitem':
+                        mkey, mval = e[2], e[3]
+                        parts = mx.call_of(mval, 'logical_or') or mx.call_of(mval, 'mask_or')
+                        texts = sorted(mx.show(a) for a in parts[0]) if parts else []
+                        okm = mx.show(mkey) == mx.show(upd[0][2]) and texts == sorted(['%s.mask[%s]' % (dest, mx.show(upd[0][2]) if not isinstance(upd[0][2], tuple) else ', '.join(mx.show(x) for x in upd[0][2])),
+                                                                                      'self.mask[%s]' % ', '.join(mx.show(x) for x in key_from)])
+                    else:
+                        okm = e[3] == 'BitOr' and mx.show(e[2]) == mx.show(upd[0][2]) and mx.show(e[4]) == 'self.mask[%s]' % ', '.join(mx.show(x) for x in key_from)
+                if not okm:
+                    prob['mask'].append('%s: %s' % (tagr, [(e[0], mx.show(e[2]), mx.show(e[3] if e[0] == 'setitem' else e[4])[:70]) for e in mset]))
+    hv = lp.target.id if isinstance(lp.target, ast.Name) else '?'
+    rep.ob('R-EXH', '_project_one_axis loop', not prob['loop'], '; '.join(prob['loop'][:2]) if prob['loop'] else 'for %s in range(current size + 1) (%d axis/dimension combinations executed abstractly)' % (hv, n_runs), sm.rel, lp.lineno,
+           what='every source hit count 0..from is visited')
+    rep.ob('R-ALG', '_project_one_axis window', not prob['to'] and not prob['proj'], '; '.join((prob['to'] + prob['proj'])[:2]) if prob['to'] or prob['proj'] else 'destination and weights restricted to [max(n-(from-hits),0), min(hits,n)]',
+           sm.rel, lp.lineno, what='least = max(n-(from-hits), 0), most = min(hits, n): the support of the hypergeometric distribution')
+    rep.ob('R-IDX', '_project_one_axis from_slice[axis]', not prob['from'], '; '.join(prob['from'][:2]) if prob['from'] else 'source restricted to slice(hits, hits+1) on the projected axis, full elsewhere', sm.rel, lp.lineno,
+           what='from_slice[axis] = slice(hits, hits + 1)')
+    rep.ob('R-IDX', '_project_one_axis to_slice[axis]', not prob['to'], '; '.join(prob['to'][:2]) if prob['to'] else 'destination restricted to the window on the projected axis, full elsewhere', sm.rel, lp.lineno,
+           what='to_slice[axis] = slice(least, most + 1)')
+    rep.ob('R-IDX', '_project_one_axis proj_slice[axis]', not prob['proj'], '; '.join(prob['proj'][:2]) if prob['proj'] else 'weights restricted to the window and aligned with the projected axis (new axes elsewhere)', sm.rel, lp.lineno,
+           what='proj_slice[axis] = slice(least, most + 1)')
+    rep.ob('R-IDX', '_project_one_axis weights call', not prob['call'], '; '.join(prob['call'][:2]) if prob['call'] else '_cached_projection(n, current size, hits)', sm.rel, lp.lineno, what='_cached_projection(to=n, from=proj_from, hits)')
+    rep.ob('R-TPL', '_project_one_axis data update', not prob['data'], '; '.join(prob['data'][:2]) if prob['data'] else 'destination window += source slice * weights', sm.rel, lp.lineno, what='destination window += source slice * weights window')
+    rep.ob('R-TPL', '_project_one_axis mask update', not prob['mask'], '; '.join(prob['mask'][:2]) if prob['mask'] else 'destination mask |= source mask over the same index tuples as the data', sm.rel, lp.lineno,
+           what='destination mask |= source mask over the same window as the data')
+    rep.ob('R-IDX', '_project_one_axis slices init', not prob['to'] and not prob['from'] and not prob['proj'], 'other axes: full slices for data, broadcast (newaxis) for the weights', sm.rel, po.lineno, what='only the projected axis is restricted')
     pfs = sing.get('pfs')
     okz = pfs is not None and 'numpy.zeros(newshape)' in ast.unparse(pfs) and 'mask_corners=False' in ast.unparse(pfs)
     ns_ = [x for x in po.body if isinstance(x, ast.Assign) and ast.unparse(x.targets[0]) == 'newshape[axis]']
